@@ -19,18 +19,28 @@ Record uinfo := mkUF {
   u_crd : option id;     (* id of the CRD object defining this object's kind, if in the universe *)
   u_fin : bool;          (* every incarnation of this object carries a finalizer that nobody removes
                             during the run: an accepted DELETE marks it terminating, the object stays *)
+  u_gcur : bool;         (* kstatus computes Current for the object as a GET returns it during this run
+                            (ApplyTimeMutator.computeStatus): false for a kind whose bare manifest is not
+                            Current (Deployment, CustomResourceDefinition: the manifests carry no status)
+                            and while the object is terminating *)
 }.
-Definition mkU (k : kindc) (n c : option id) : uinfo := mkUF k n c false.
+Definition mkU (k : kindc) (n c : option id) : uinfo := mkUF k n c false true.
 
 (* ---- local (manifest) objects of an apply run --------------------------- *)
-Record lobj := mkL {
+Record lobj := mkLM {
   l_id : id;
-  l_deps : list id;      (* depends-on annotation targets, in annotation order *)
-  l_baddep : bool;       (* depends-on annotation present but malformed *)
+  l_deps : list id;      (* dependency references of the manifest, in annotation order: depends-on targets, or
+                            (l_mut) the source objects of its apply-time-mutation substitutions *)
+  l_baddep : bool;       (* the dependency annotation is present but malformed *)
   l_finv : bool;         (* fails field validation (namespace on a cluster-scoped kind / missing on a namespaced one) *)
   l_keep : bool;         (* manifest carries a deletion-prevention annotation *)
   l_ver : nat;           (* content version of the manifest *)
+  l_mut : bool;          (* the references are spelled as config.kubernetes.io/apply-time-mutation substitutions:
+                            besides being dependencies, every source is LOOKED UP by the apply task right before
+                            kubectl apply (resource cache, else a GET); the substitution itself is not modelled *)
 }.
+(* a manifest whose references (if any) are depends-on references *)
+Definition mkL (i : id) (deps : list id) (bad finv keep : bool) (ver : nat) : lobj := mkLM i deps bad finv keep ver false.
 
 (* ---- cluster ------------------------------------------------------------ *)
 Inductive owner := ONone | OOurs | OOther.
